@@ -5,7 +5,9 @@ from mods.common import parse, WH
 NAME = "layout"
 
 def generate(repo):
-    out = ['Definition round_half_up_div (e d : Z) := (2*e + d) / (2*d).\n',
+    # int(E / D + 0.5): E / D + 0.5 is the rational (2E + D) / (2D); int() truncates toward zero = Z.quot.
+    # (exact while the float quotient is exact enough: |E| + |D| < 2^50, see harness/props/c19.py)
+    out = ['Definition round_half_up_div (e d : Z) := Z.quot (2*e + d) (2*d).\n',
            'Inductive wtype := WRelative | WClip | WGiven | WPack | WWeight.\n'
            'Inductive atype := ALeft | ACenter | ARight | ARelative.\n'
            'Inductive vtype := VTop | VMiddle | VBottom | VRelative.\n']
